@@ -30,7 +30,7 @@ def run(ck):
         raise ToolError("recorder died: %s" % crash)
     ck.evaluations += 4 * (s["sentences"] + s["texts"])
     ck.distinct += s["records"]
-    j = props.judge(ck, "Trace_Loader", out)
+    j = props.judge(ck, "Trace_Loader", out, chunk=40000)
     ck.traces += j.judged
     if j.rejects:
         recs = read_ndjson(out)
@@ -40,7 +40,7 @@ def run(ck):
             ck.violation("%s:%s:%s" % (r["src"], r["ty"], json.dumps(ident)), "%s (%s, node type %s): %s" % (rej[1], r["src"], r["ty"], str(ident)[:200]), r)
     # "each scalar becomes the value chosen by its text, style and tag": every distinct (text, style, tag) met in an accepted
     # text, as resolved by the library's entry points (loader included), judged by the core-schema reference (YCoreSchema)
-    js = props.judge(ck, "Trace_Schema", sc, name="c07_scalars", timeout=3600)
+    js = props.judge(ck, "Trace_Schema", sc, name="c07_scalars", timeout=3600, chunk=40000)
     srecs = read_ndjson(sc)
     ck.traces += js.judged
     ck.evaluations += s.get("scalar_cells", 0)
